@@ -161,7 +161,8 @@ pub fn apply_ref(op: &OpK, a: &[&T]) -> Result<T, RErr> {
             a[0].map(|x| x.sigmoid())
         }
         OpK::Softmax => {
-            dom_bounded(a[0], 20.0)?;
+            // every exponential must stay finite in the float type under test
+            dom_bounded(a[0], if crate::common::IS_F32 { 85.0 } else { 705.0 })?;
             a[0].softmax()?
         }
         OpK::Sum(k) => a[0].sum(*k)?,
